@@ -1,19 +1,22 @@
 import Pm.HLFind
 import Pm.SortFProof
+import Pm.SortFuel
 import Pm.RoundTrip
 /-! # C14 — host-range notation round-trips without changing any name
 
 Property theorems over the hostlist mirrors (`Pm/HL.lean`, `Find.lean`, `Create.lean`, `Sort.lean`), which are compared with the real
 `liblsd/hostlist.c` answer by answer on every run.  Helper lemmas: `Pm/Num.lean`, `Digits.lean`, `HLProof.lean`, `Find.lean`,
 `HLDefs.lean`, `HLMore.lean` (well-formedness, count, nth, print/parse inverses), `HLFind.lean` (find completeness, delete),
-`SortF.lean` + `SortFProof.lean` (total restatement of `hostlist_sort` and its permutation proof), `RoundTrip.lean` (string round trip).
+`SortF.lean` + `SortFProof.lean` (total restatement of `hostlist_sort` and its permutation proof), `SortFuel.lean` (the outer loop of
+`hostlist_coalesce` ends within the computed bound), `RoundTrip.lean` (string round trip).
 
 Contents: push appends exactly the pushed name ▸ find is sound ▸ width handling changes no printed name ▸ 1. well-formedness is
 kept by push / delete / create, so a list built by pushing names denotes exactly those names ▸ 2. count and nth agree with the
 expansion ▸ 3. find is complete (first occurrence) under the suffix bound the code imposes (F10 is the counterexample), with no proviso
 for lists built by pushes and deletes ▸ 4. delete removes exactly the first occurrence ▸ 5. the compressed string parses back to the
 same names (ranges of at most 16384 hosts; a larger one is the counterexample) ▸ 6. sort is a permutation of the names
-(the sort mirror is total: fuel computed from the input; F19 is the abort counterexample). -/
+(the sort mirror is total: fuel computed from the input and proved sufficient, so sorting a well-formed list returns or dies in the
+assert of `hostrange_intersect`; F19 is the abort counterexample). -/
 namespace Pm.Props.C14
 open Pm
 
@@ -276,9 +279,11 @@ example : (∀ n ∈ sampleNames, LegalName n) ∧ (∀ r ∈ sampleNames.foldl 
 
 `sortHL` (`Sort2.lean`: `msort`, `coalesce`, `collapse`) is the mirror the daemon model and the differential driver run: glibc's
 merge order, the width side effects of `hostrange_cmp`, the assert of `hostrange_intersect`; every loop structurally recursive on a
-fuel computed from its input, with an explicit `.fuel` outcome.  The merge sort and `hostlist_collapse` provably never run out
-(`C14_sort_fuel_partial`); for the outer loop of `hostlist_coalesce` the bound `(hosts + ranges + 2)⁴` is generous but its
-sufficiency is not proved, so the theorems below say "whenever `sortHL` returns `.ok`".  (These definitions replaced `partial` definitions;
+fuel computed from its input, with an explicit `.fuel` outcome.  None of the bounds is ever exceeded on a well-formed list
+(`C14_sort_fuel`): the merge sort and `hostlist_collapse` trivially, the outer loop of `hostlist_coalesce` — which restarts its scan
+after every split — by the measure of `SortFuel.lean`, within `(hosts + ranges + 2)⁴` iterations.  So `hostlist_sort` either returns
+(and then the theorems below apply) or dies in the assert of `hostrange_intersect` (`C14_sort_total`, F19).  (These definitions replaced
+`partial` definitions;
 the record of their agreement on 23 hand-written and 20000 pseudo-random lists is in `SortF.lean`.) -/
 
 /-- sorting never adds, drops or renames a node: whenever `hostlist_sort` returns (no assert, fuel not exhausted),
@@ -315,12 +320,72 @@ theorem C14_coalesce_perm {st st' : Store} {ids ids' : List Nat} (hinv : Inv st 
 theorem C14_collapse_perm {st st' : Store} {ids ids' : List Nat} (hinv : Inv st ids) (h : collapse st ids = .ok (ids', st')) :
     Inv st' ids' ∧ (den st' ids').Perm (den st ids) := collapse_spec hinv h
 
-/- Full-strength statement, not proved: `theorem C14_sort_fuel (hl) (hwf : HWFS hl) : sortHL hl ≠ .fuel`.
-   What is missing is a termination measure for the outer loop of `hostlist_coalesce` (each split restarts the scan; splits
-   that add ranges are bounded by the number of hosts, splits that only exchange the ends of two ranges remove one inversion
-   of the `hi` sequence) carried through the store/id representation. -/
+/-- `hostlist_sort` always ends, within the iteration bounds its mirror computes from the input: on a well-formed list
+    `sortHL` never answers `.fuel`.  The merge sort and `hostlist_collapse` are immediate; the outer loop of
+    `hostlist_coalesce` restarts its scan at the end of the list after every split, and ends within
+    `coalesceFuel = (hosts + ranges + 2)⁴` iterations because `((N - R)·(N+1)² + inv)·(N+1) + i` decreases in each one:
+    `N` hosts (never changes), `R ≤ N` ranges (none is empty), `inv ≤ R²` inversions of the sequence of `hi` fields, `i` the scan
+    position.  An iteration either moves `i` down by one leaving every `lo`/`hi` alone, or splits at a point range
+    (`[a-c],[x-x]` with `a ≤ x < c` becomes `[a-x],[x-c]`: same `R`, the two neighbouring `hi` values `c > x` change places,
+    exactly one inversion less), or splits an overlap of more than one host and then adds at least one range. -/
+theorem C14_sort_fuel (hl : Hostlist) (hwf : HWFS hl) : sortHL hl ≠ .fuel := sortHL_ne_fuel hl hwf
 
-/-- `hostlist_sort` can report `.fuel` only through the outer loop of `hostlist_coalesce`: the merge sort (recursion depth
+/-- the same for the loop alone, from any state satisfying `Inv` (ids distinct and in bounds, ranges `WFS`) -/
+theorem C14_coalesce_no_fuel {st : Store} {ids : List Nat} (hinv : Inv st ids) : coalesce st ids ≠ .fuel :=
+  coalesce_ne_fuel hinv
+
+/-- `hostlist_sort` of a well-formed list either returns a list or dies in `assert(hostrange_cmp(h1, h2) <= 0)` of
+    `hostrange_intersect` (which happens: F19, `C14_sort_abort_counterexample`) — there is no third outcome -/
+theorem C14_sort_total (hl : Hostlist) (hwf : HWFS hl) : (∃ r, sortHL hl = .ok r) ∨ sortHL hl = .abort :=
+  sortHL_total hl hwf
+
+/-- … and when it returns, the result is well formed and holds exactly the same names, duplicates included
+    (`C14_sort_perm`, `C14_sort_WFS` without the hypothesis that `sortHL` answered `.ok`) -/
+theorem C14_sort_total_perm (hl : Hostlist) (hwf : HWFS hl) :
+    (∃ r, sortHL hl = .ok r ∧ (expand r).Perm (expand hl) ∧ HWFS r) ∨ sortHL hl = .abort := by
+  rcases sortHL_total hl hwf with ⟨r, h⟩ | h
+  · exact Or.inl ⟨r, h, sortHL_spec hl r hwf h⟩
+  · exact Or.inr h
+
+/-- for consumers that say "the sort did not return" (`SortRes.Died` = `.abort ∨ .fuel`): on a well-formed list that
+    means the assert and nothing else -/
+theorem C14_sort_Died_iff (hl : Hostlist) (hwf : HWFS hl) : (sortHL hl).Died ↔ sortHL hl = .abort :=
+  sortHL_Died_iff hl hwf
+
+/-- where the abort comes from: the merge sort and `hostlist_collapse` contain no assert, so `hostlist_sort` dies only in an
+    iteration of `hostlist_coalesce` … -/
+theorem C14_sort_abort_only_coalesce (hl : Hostlist) (h : sortHL hl = .abort) :
+    ∃ ids st, msort (hl.length + 1) hl.toArray (List.range hl.length) = .ok (ids, st) ∧ coalesce st ids = .abort :=
+  sortHL_abort_only_coalesce hl h
+
+/-- … namely one that looks at two neighbouring numeric ranges which `hostrange_cmp` puts in the wrong order … -/
+theorem C14_coalesce_step_abort_iff (st : Store) (ids : List Nat) (i : Nat) :
+    coalesceStep st ids i = .abort ↔
+      i ≠ 0 ∧ (st[ids[i-1]!]!).single = false ∧ (st[ids[i]!]!).single = false ∧ (cmpM st ids[i-1]! ids[i]!).1 > 0 :=
+  coalesceStep_abort_iff st ids i
+
+/-- … which for numeric ranges means: a later prefix on the left; or the same prefix and either reconcilable widths with a
+    larger `lo` on the left, or widths `_width_equiv` cannot reconcile with the wider range on the left (F19: `066` after
+    `97-100` — the comparator is not a total order across widths, so `qsort` leaves such pairs behind) -/
+theorem C14_cmp_pos_iff (st : Store) (p q : Nat) (hp : (st[p]!).single = false) (hq : (st[q]!).single = false) :
+    (cmpM st p q).1 > 0 ↔
+      (st[q]!).pfx < (st[p]!).pfx ∨
+      ((st[p]!).pfx = (st[q]!).pfx ∧
+        ((combOk st[p]! st[q]! = true ∧ (st[q]!).lo < (st[p]!).lo) ∨
+         (combOk st[p]! st[q]! = false ∧ (st[q]!).width < (st[p]!).width))) :=
+  cmpM_pos_iff st p q hp hq
+
+/-- premises of `C14_sort_fuel` / `C14_sort_total` on a list where both kinds of split occur (`n[1-10],n[5-5]` is a point
+    split, `m[1-3],m[2-5]` adds ranges), and on the list that aborts -/
+example : HWFS (hlOfString "n[1-10],n[5-5],m[1-3],m[2-5],x") ∧
+    sortHL (hlOfString "n[1-10],n[5-5],m[1-3],m[2-5],x") = .ok (hlOfString "m[1-2],m[2-3],m[3-5],n[1-5],n[5-10],x") := by
+  constructor
+  · unfold HWFS; decide +kernel
+  · decide +kernel
+example : HWFS (hlOfString "f[97-100,066,97-103]") := by unfold HWFS; decide +kernel
+
+/-- (kept from before `C14_sort_fuel` was proved; it holds for every list, well formed or not)
+    `hostlist_sort` can report `.fuel` only through the outer loop of `hostlist_coalesce`: the merge sort (recursion depth
     `≤ length`, merge loop `≤ |l| + |r|` steps) and `hostlist_collapse` (`i` goes down by one per step) never exceed their bounds -/
 theorem C14_sort_fuel_partial (hl : Hostlist) (h : sortHL hl = .fuel) :
     ∃ ids st, msort (hl.length + 1) hl.toArray (List.range hl.length) = .ok (ids, st) ∧ coalesce st ids = .fuel :=
